@@ -70,9 +70,9 @@ theorem applyInclude_congr (l1 l2 : List String → List String → Res)
     exact applyInclude_congr l1 l2 h rest included hne
   | (p0 :: ps) :: rest, included, hne => by
     unfold applyInclude at hne ⊢
-    by_cases hin : p0 ∈ included
+    by_cases hin : (p0 :: ps).any (fun p => decide (p ∈ included)) = true
     · simp only [hin, ↓reduceIte]
-    · simp only [hin, ↓reduceIte] at hne ⊢
+    · simp only [hin] at hne ⊢
       cases hs : l1 (p0 :: ps) included with
       | outOfFuel => rw [hs] at hne; exact absurd rfl hne
       | ok =>
